@@ -3,7 +3,7 @@
    statements as Definitions where only a part is proved, and non-vacuity Examples.
    Model: C14/Model.v (tied to /repo/systems/pbkvs/pbkvs.go by the correspondence check, ./check C14). *)
 From Coq Require Import List String.
-From PGV Require Import C14.Model C14.Corr C14.Witness C14.Proofs C14.ProofsFF C14.ProofsLin C14.ProofsCrashC.
+From PGV Require Import C14.Model C14.Corr C14.Witness C14.Proofs C14.ProofsFF C14.ProofsLin C14.ProofsCrashC C14.ProofsLinFF.
 Import ListNotations.
 
 (* ---------------------------------------------------------------- full statements *)
@@ -50,6 +50,16 @@ Theorem consistency_ok_failure_free : forall cfg input evs s,
   exec cfg (init cfg input) evs = Some s -> ConsistencyOK cfg s.
 Proof. exact consistency_failure_free_lemma. Qed.
 Print Assumptions consistency_ok_failure_free.
+
+(* linearizability, positive half: without crashes no client ever re-sends a request, and then the history of
+   every execution (ANY number of replicas >= 1 (the spec's ASSUME), clients, keys, operations; every
+   interleaving) is linearizable; the linearization points are the primary's handlePrimary steps.
+   The full statement pb_linearizable_statement is refuted below (client retry after a primary crash). *)
+Theorem pb_linearizable_failure_free_partial : forall cfg input evs s,
+  explore_fail cfg = false -> 1 <= NR cfg -> Forall input_ok input ->
+  exec cfg (init cfg input) evs = Some s -> linearizable (hist s).
+Proof. exact linearizable_failure_free_lemma. Qed.
+Print Assumptions pb_linearizable_failure_free_partial.
 
 (* the checker used on both sides of the tie is complete: a history it rejects is not linearizable *)
 Theorem lin_checker_complete : forall h, linearizable h -> linearizable_b h = true.
